@@ -583,6 +583,7 @@ class C02(Prop):
         pending_end = None
         pending_raise = None   # (exn, now) raised by a step, to be seen as the result of the plan item
         item = None
+        done, done_before = set(), set()     # events processed so far / when the current plan item began
 
         def add(m):
             msgs.append(m)
@@ -595,18 +596,22 @@ class C02(Prop):
             if tag == "item":
                 item = x[1]
                 pending_raise = None
+                done_before = set(done)
             elif tag == "itemend":
                 res = results[x[1]] if x[1] < len(results) else None
                 if pending_raise is not None and res is not None:
                     exn, t = pending_raise
                     if res[0] != ["raise", exn] or res[1] != t:
                         add(f"failure-not-propagated: step raised {exn} at {t}, the plan item ended with {res[0]} at {res[1]}")
-                if x[2] is not None and res is not None and x[3] is not None and x[2] not in misused:
-                    if res[0][0] == "stop":
-                        if x[3][0] == "ok" and res[0][1] != x[3][1] and cls_of.get(x[2]) not in COND_CLASSES:
-                            add(f"until-value: run(until=event) returned {res[0][1]}, the event's value is {x[3][1]}")
-                        if x[3][0] == "fail":
-                            add(f"until-value: run(until=event) returned {res[0][1]} although the event failed with {x[3][1]}")
+                if x[2] is not None and res is not None and x[3] is not None and x[2] not in misused \
+                        and cls_of.get(x[2]) not in COND_CLASSES:
+                    if x[2] in done_before:
+                        # already processed when run() was called: run returns until.value (the exception object if it failed)
+                        want = ["stop", x[3][1] if x[3][0] == "ok" else ["exn", x[3][1][0], x[3][1][1]]]
+                    else:
+                        want = ["stop", x[3][1]] if x[3][0] == "ok" else ["raise", x[3][1]]
+                    if res[0][0] in ("stop", "raise") and res[0] != want and x[2] in done:
+                        add(f"until-value: run(until=event {x[2]}) ended with {res[0]}; the event's outcome is {x[3]}, expected {want}")
                 item = None
                 pending_raise = None
             elif tag == "sched":
@@ -627,6 +632,7 @@ class C02(Prop):
                     add(f"run-continued-after-failure: step {k} ran after a step raised {pending_raise[0]}")
                     pending_raise = None
                 cls_of[sid] = cls
+                done.add(sid)
                 expected = reg.pop(sid, [])
                 if waiters is not None:
                     snap = [w[1] for w in waiters if w[0] == "resume"]
